@@ -29,6 +29,9 @@ def gen(rng, max_m, max_n):
     rec = W.gen_reshape_op(rng, ["recreate"])
     rec["n"] = rng.randint(2, max_n)
     ops.append(rec)
+    # requests that are refused (and caught by the application) in between must not leave anything behind
+    for _ in range(rng.choice([0, 0, 0, 1, 1, 2])):
+        ops.insert(rng.randint(0, len(ops)), W.gen_fail_op(rng))
     ops.append({"op": "match", "target": rng.choice(["trapezoid", "rectangle"]), "ref": "rectangle",
                 "alpha": rng.choice([1, 2, 3]), "strategy": rng.choice(["closest", "closest", "lower", "higher"])})
     c["ops"] = ops
@@ -91,6 +94,9 @@ def compare(c, io, mo):
 
 def oracle(c, io):
     steps = io["steps"]
+    bad = W.accepted_invalid(io)
+    if bad:
+        return bad
     if any("err" in s for s in steps):
         e = [s["err"] for s in steps if "err" in s][0]
         return f"valid recreate + match pipeline raised {e}"
@@ -130,7 +136,8 @@ def oracle(c, io):
 
 def tags(c, io, mo):
     t = [f"strategy={[o for o in c['ops'] if o['op'] == 'recreate'][0]['strategy']}", f"target={c['ops'][-1]['target']}",
-         f"search={c['ops'][-1]['strategy']}", "append" if c["ops"][0]["op"] == "append" else "no-append"]
+         f"search={c['ops'][-1]['strategy']}", "append" if any(o["op"] == "append" for o in c["ops"]) else "no-append",
+         f"refused-requests-in-between={sum(1 for o in c['ops'] if o['op'] == 'fail')}"]
     if "dataset" in c:
         t.append("bundled-dataset")
     return t
